@@ -54,3 +54,5 @@ mod c02;
 mod c20;
 #[cfg(kani)]
 mod c06;
+#[cfg(kani)]
+mod c01;
